@@ -162,6 +162,7 @@ type Spec struct {
 
 	OrderSensitive bool
 	Snap           bool // snapshot runs make sense (sorters are total on these keys)
+	CrashOnly      bool // the keys cannot be represented in the output (a group value that contains the element separator): only "the command completes with the expected exit status, identically for every variant" is judged
 	Monotone       bool // displayed rows/cells only grow and values only grow: intermediate renders cannot leave anything but padding behind
 	HasNeg         bool
 	NoFormat       bool
